@@ -63,6 +63,7 @@ struct RunResult {
 fn run_worker(id: &str, tier: &str, labels: &[String], timeout: Duration, trace_file: Option<&std::path::Path>, extra_env: &[(String, String)]) -> RunResult {
     let exe = std::env::current_exe().expect("current exe");
     let mut cmd = Command::new(exe);
+    cmd.env("RUST_BACKTRACE", "0");
     cmd.arg(id).arg(tier).arg("--worker").stdin(Stdio::piped()).stdout(Stdio::piped()).stderr(Stdio::piped());
     if let Some(t) = trace_file {
         cmd.env("VERIF_TRACE_CASES", t);
@@ -91,12 +92,9 @@ fn run_worker(id: &str, tier: &str, labels: &[String], timeout: Duration, trace_
         let mut s = Vec::new();
         let _ = stderr.read_to_end(&mut s);
         let s = String::from_utf8_lossy(&s).to_string();
-        let n = s.len();
-        let mut st = n.saturating_sub(1500);
-        while !s.is_char_boundary(st) {
-            st += 1;
-        }
-        s[st..].to_string()
+        // the first lines carry the panic / allocation message, the last ones the end of a backtrace
+        let head: String = s.lines().filter(|l| !l.trim_start().starts_with("at ") && !l.trim_start().chars().next().map(|c| c.is_ascii_digit()).unwrap_or(false)).take(6).collect::<Vec<_>>().join(" | ");
+        head.chars().take(1200).collect::<String>()
     });
     let mut reports = Vec::new();
     let mut current: Option<String> = None;
